@@ -82,9 +82,13 @@ def split_file(path, nshards, outdir, prefix):
     """Round-robin split of an NDJSON case file into shards."""
     outs = [open(os.path.join(outdir, f"{prefix}.{i}.cases"), "w") for i in range(nshards)]
     n = 0
+    grp_re = re.compile(r'"group":(\d+)')
     with open(path) as f:
         for i, line in enumerate(f):
-            outs[i % nshards].write(line)
+            # cases of one group stay adjacent in one shard
+            m = grp_re.search(line)
+            g = int(m.group(1)) if m else 0
+            outs[(g if g else i) % nshards].write(line)
             n += 1
     for o in outs:
         o.close()
@@ -160,10 +164,20 @@ class TraceResult:
         self.events = 0
 
 
+ENABLED_PROPS = set()
+
+
+def rule_env():
+    """R_Cxx = "1" for every property whose rules TLC should evaluate."""
+    return {f"R_C{i:02d}": ("1" if f"C{i:02d}" in ENABLED_PROPS else "0") for i in range(1, 21)}
+
+
 def validate_trace(trace, module="Trace_Solve.tla", cfg="Trace_Solve.cfg", tag="t"):
     """TLC-validates one trace shard; returns (fails, covers, begins, stats)."""
     metadir = os.path.join(WORK, "md_" + tag + "_" + os.path.basename(trace))
-    out, st = tlc(module, cfg, metadir, env_extra={"TRACE": trace})
+    env = {"TRACE": trace}
+    env.update(rule_env())
+    out, st = tlc(module, cfg, metadir, env_extra=env)
     fails, covers, begins = [], [], []
     notconsumed = None
     for kind, f in parse_reports(out):
